@@ -995,6 +995,10 @@ class PE:
                 c2 = Dct(c.kind, c.entries, c.open, c.name)
                 c2.entries[show(k)] = (k, v)
                 self._store_name(target.value.id, c2, p)
+            elif isinstance(c, Dct) and isinstance(target.value, ast.Attribute) and isinstance(self.ev1(target.value.value, p), Obj):
+                c2 = Dct(c.kind, c.entries, c.open, c.name)
+                c2.entries[show(k)] = (k, v)
+                p.heap.setdefault(self.ev1(target.value.value, p).oid, {})[target.value.attr] = c2
             else:
                 p.events.append(("setitem", show(c), show(k), v))
         elif isinstance(target, ast.Starred):
